@@ -25,11 +25,10 @@ import (
 )
 
 type c18WireScn struct {
-	Op      string     `json:"op"`
-	H       []c18Entry `json:"h"`
-	Pre     []c18Entry `json:"pre"`
-	Wire    []c18Entry `json:"wire"`
-	WireAlt []c18Entry `json:"wire_alt"`
+	Op   string     `json:"op"`
+	H    []c18Entry `json:"h"`
+	Pre  []c18Entry `json:"pre"`
+	Wire []c18Entry `json:"wire"`
 }
 
 func TestVerifC18Wire(t *testing.T) {
@@ -111,11 +110,7 @@ func TestVerifC18Wire(t *testing.T) {
 		if c18MapEq(got, want) {
 			continue
 		}
-		class := "other"
-		if c18MapEq(got, c18Map(s.WireAlt, "", true)) {
-			class = "bin-not-decoded"
-		}
-		m := c18Mismatch{Area: "hdr", Op: "wire", Fn: "AppendToOutgoingContext", Class: class, Obs: c18Show(got), Exp: c18Show(want),
+		m := c18Mismatch{Area: "hdr", Op: "wire", Fn: "AppendToOutgoingContext", Class: "result", Obs: c18Show(got), Exp: c18Show(want),
 			Note: "header list -> AppendToOutgoingContext -> grpc-go wire -> FromIncomingContext -> ConvertMetadataToProtoHeader", Scn: ln, Repro: 1}
 		for k := 0; k < 2; k++ {
 			if g2, err := call(&s); err == nil && !c18MapEq(g2, want) {
